@@ -493,6 +493,14 @@ def summary(ctx: Ctx):
 _DECOY_ITP = b"[ moleculetype ]\nDECOY 1\n[ atoms ]\n1 C 1 DEC A1 1\n2 C 1 DEC A2 2\n[ bonds ]\n1 2 1\n"
 _DECOY_GRO = (b"decoy\n    2\n    1DEC     A1    1   0.100   0.200   0.300\n"
               b"    1DEC     A2    2   0.400   0.500   0.600\n   1.00000   1.00000   1.00000\n")
+# a second coordinate decoy with velocities: 68-column atom lines, as long as a %16.11f positions-only line (a layout
+# remembered per line LENGTH — seed C12-10 — then misreads the wide file that follows)
+_DECOY_GRO_V = (b"decoy with velocities\n    2\n"
+                b"    1DEC     A1    1   0.100   0.200   0.300  0.1000  0.2000  0.3000\n"
+                b"    1DEC     A2    2   0.400   0.500   0.600 -0.1000 -0.2000 -0.3000\n"
+                b"   1.00000   1.00000   1.00000\n")
+
+_decoy_calls = [0]
 
 
 def decoy(path: str, kind: str):
@@ -517,17 +525,22 @@ def decoy(path: str, kind: str):
         else:
             from gaddlemaps.parsers import GroFile
             from gaddlemaps.components import SystemGro, System
-            try:
-                g = GroFile(path)
-                g.readlines()
-                g.close()
-            except Exception:   # noqa: BLE001
-                pass
-            for fn in (SystemGro, System):
+            _decoy_calls[0] += 1
+            # (the velocity decoy on the first call — a replay is a first call — and every fourth one after it)
+            for content in ((_DECOY_GRO, _DECOY_GRO_V) if _decoy_calls[0] % 4 == 1 else (_DECOY_GRO,)):
+                with open(path, "wb") as fh:
+                    fh.write(content)
                 try:
-                    fn(path)
+                    g = GroFile(path)
+                    g.readlines()
+                    g.close()
                 except Exception:   # noqa: BLE001
                     pass
+                for fn in (SystemGro, System):
+                    try:
+                        fn(path)
+                    except Exception:   # noqa: BLE001
+                        pass
     try:
         os.unlink(path)
     except OSError:
